@@ -139,7 +139,8 @@ def gen_restype(g, name, atypes, idx, allow_vs=True, allow_angles=True, max_atom
                            "params": [round(g.uniform(0.2, 0.8), 3), round(g.uniform(0.05, 0.2), 3)]})
         elif kind == "3fad":
             vsites.append({"kind": "3", "funct": 3, "from": [0, 1, 2],
-                           "params": [round(g.uniform(60, 140), 1), round(g.uniform(0.05, 0.2), 3)]})
+                           "params": [g.choice([-110.0, 250.0, 200.0]) if g.random() < 0.3 else round(g.uniform(60, 140), 1),
+                                      round(g.uniform(0.05, 0.2), 3)]})     # (angles outside [0, 180]: site on the other side)
         elif kind == "3out":
             vsites.append({"kind": "3", "funct": 4, "from": [0, 1, 2],
                            "params": [round(g.uniform(0.1, 0.4), 3), round(g.uniform(0.1, 0.4), 3),
